@@ -314,6 +314,24 @@ def xpath(root: "El", ctx: "El", expr: str):
             continue
         m = _STEP.match(part)
         if not m:
+            # a location path of several steps: //svg:defs/svg:*[not(@id)] - evaluated step by step
+            pieces = _re.findall(r"(//|/|\.//|\./)?((?:svg:\*|svg:[A-Za-z]+|\*|[A-Za-z]+)(?:\[[^\]]*\])?)", part)
+            if pieces and "".join(a + b for a, b in pieces) == part and len(pieces) > 1:
+                cur = None
+                for axis_, step_ in pieces:
+                    if cur is None:
+                        cur = xpath(root, ctx, (axis_ or "") + step_)
+                    else:
+                        nxt = []
+                        for node in cur:
+                            for hit in xpath(root, node, ("./" if axis_ in ("/", "") else ".//") + step_):
+                                if not any(hit is o for o in nxt):
+                                    nxt.append(hit)
+                        cur = nxt
+                for hit in cur or []:
+                    if not any(hit is o for o in out):
+                        out.append(hit)
+                continue
             raise Undecided(f"xpath form not modelled: {part!r}")
         axis, name, pred = m.group("axis"), m.group("name"), m.group("pred")
         if axis in ("//",):
